@@ -229,15 +229,20 @@ PROPS.update({
     },
     "C18": {
         "title": "Unacknowledged mode is one-way unless closure is requested; closure works",
-        "verus": [("send", ["O-C18-"])],
+        "verus": [("send", ["O-C18-"]), ("recv", ["O-C18-"])],
         "level": "proof",
-        "technique": "deductive verification (Verus/Z3) of contracts on the sender's send_pdu / process_pdu / send_indication",
+        "technique": "deductive verification (Verus/Z3) of contracts on the sender's send_pdu / process_pdu / send_indication and of a one-way invariant over the receiver's functions",
         "design_ref": "DESIGN.md 4/C18",
         "level_text": "Partial, proof of function contracts on the SENDER: in unacknowledged mode send_pdu ends the transaction (state Terminated, Finished indication) "
                       "with the emission of the EOF when no closure was requested and leaves it waiting when closure was requested; process_pdu never queues a "
                       "retransmission or re-arms the EOF in unacknowledged mode, whatever the peer sends; with closure requested a Finished PDU ends the transaction and "
                       "its condition, delivery code and file status become the sender's, and every Finished indication carries exactly the outcome the transaction holds "
-                      "(precondition of send_indication, checked at every call site); without closure a Finished PDU is refused. NOT decided here: that the sender "
+                      "(precondition of send_indication, checked at every call site); without closure a Finished PDU is refused. RECEIVER: the one-way invariant "
+                      "(unacknowledged mode => no pending ACK, no prompt, empty NAK queue, no delayed NAK check, NAK timer never started) is a precondition of "
+                      "send_pdu and is preserved by process_pdu, handle_timeout, suspend, resume, cancel, abandon, shutdown, handle_fault, store_file_data, "
+                      "check_finished and the emitters; send_naks, send_ack_eof and answer_prompt require acknowledged mode, so an unacknowledged-mode receiver's "
+                      "send_pdu can emit a Finished PDU only (finalize_receive is an external stub whose frame is ASSUMED; new() establishing the invariant is "
+                      "by inspection). NOT decided here: that the sender "
                       "transmits each file-data PDU once (first-pass tiling: C07), the waiting 'up to its limits' (timers: C17), and the two-party sentence as a whole.",
         "level_note": VERUS_NOTE,
     },
